@@ -2193,6 +2193,12 @@ static program_t *epilog ()
       && mem_block[A_PROGRAM].current_size + mem_block[A_INITIALIZER].current_size + 8 > USHRT_MAX)
     yyerror ("Program too large: more than 65535 bytes of code.");
 
+  /* Line numbers are 16 bit as well (parse_node_t.line, the runs of line_info, the counts of file_info).  In a unit with
+   * more lines - the file and everything it includes - an error behind absolute line 65535 was reported at its line
+   * modulo 65536.  The absolute line only grows while the unit is read, so its final value bounds all the others. */
+  if (!num_parse_error && !inherit_file && current_line_base + current_line > USHRT_MAX)
+    yyerror ("Program too large: more than 65535 lines (the file and everything it includes).");
+
   if (num_parse_error > 0 || inherit_file)
     {
       /* don't print these; they can be wrong, since we didn't parse the
